@@ -13,13 +13,14 @@ import (
 
 // wResult is the canonicalised outcome of one weighted build.
 type wResult struct {
-	Err      string                    // "" | model-cycle | tuple-cycle | invalid-model | other:<msg> | panic:<msg>
-	Struct   string                    // canonical structure (nodes, edges with kinds/conditions)
-	Weights  map[string]map[string]int // canonical node name -> weights
-	Wild     map[string][]string       // canonical node name -> wildcards (sorted, duplicates kept)
-	EdgeBad  string                    // first edge violating "edge = target (+1 if hop)", "" if none
-	Full     string                    // everything, for equality across runs
-	RawNodes int
+	Err         string                    // "" | model-cycle | tuple-cycle | invalid-model | other:<msg> | panic:<msg>
+	Struct      string                    // canonical structure (nodes, edges with kinds/conditions)
+	Weights     map[string]map[string]int // canonical node name -> weights
+	Wild        map[string][]string       // canonical node name -> wildcards (sorted, duplicates kept)
+	EdgeBad     string                    // first edge violating "edge weight = target (+1 if hop)", "" if none
+	EdgeWildBad string                    // first edge whose wildcard list is not its target's (or {T} into T:*)
+	Full        string                    // everything, for equality across runs
+	RawNodes    int
 }
 
 func errClass(err error) string {
@@ -148,8 +149,11 @@ func dumpWGraph(g *graph.WeightedAuthorizationModelGraph, withWeights bool) wRes
 					wantWild = append([]string{}, to.GetWildcards()...)
 					sort.Strings(wantWild)
 				}
-				if res.EdgeBad == "" && (sortedWeights(want) != sortedWeights(ew) || strings.Join(wantWild, ",") != strings.Join(ewc, ",")) {
-					res.EdgeBad = fmt.Sprintf("edge %d of %s: weights %s wildcards %v, but its target gives %s %v", i, x.c, sortedWeights(ew), ewc, sortedWeights(want), wantWild)
+				if res.EdgeBad == "" && sortedWeights(want) != sortedWeights(ew) {
+					res.EdgeBad = fmt.Sprintf("edge %d of %s (to %s): weights %s, but its target gives %s", i, x.c, nm(to.GetUniqueLabel()), sortedWeights(ew), sortedWeights(want))
+				}
+				if res.EdgeWildBad == "" && strings.Join(wantWild, ",") != strings.Join(ewc, ",") {
+					res.EdgeWildBad = fmt.Sprintf("edge %d of %s (to %s): wildcards %v, but its target has %v", i, x.c, nm(to.GetUniqueLabel()), ewc, wantWild)
 				}
 			}
 		}
